@@ -58,6 +58,27 @@ def step (l : LocalWaker) : Op → LocalWaker × Obs
 /-- state after a history, from a fresh `LocalWaker::new()` -/
 def run (ops : List Op) : LocalWaker := ops.foldl (fun l op => (step l op).1) {}
 
+/-- a history with its observations -/
+def runObs (l : LocalWaker) : List Op → LocalWaker × List Obs
+  | [] => (l, [])
+  | op :: ops => ((runObs (step l op).1 ops).1, (step l op).2 :: (runObs (step l op).1 ops).2)
+
+/-- **Re-entrant wakers** of the stand-alone histories: a waker whose `wake()` runs its task inline,
+and that task calls back into the *same* `LocalWaker` before `wake()` returns — woken, waker `4`
+registers waker `1`, waker `5` registers itself again.  `LocalWaker::wake` takes the stored waker out
+*before* calling it, so the callback finds the cell empty and what it registers stays registered:
+a wake with a re-entrant callback is the wake followed by the callback's operations. -/
+def callback : Option WakerId → List Op
+  | some 4 => [.register 1]
+  | some 5 => [.register 5]
+  | _ => []
+
+/-- one operation as the line protocol sees it: a `wake` includes the callback of the waker it woke -/
+def stepRe (l : LocalWaker) (op : Op) : LocalWaker × List Obs :=
+  match (step l op).2 with
+  | .woke w => ((runObs (step l op).1 (callback w)).1, .woke w :: (runObs (step l op).1 (callback w)).2)
+  | o => ((step l op).1, [o])
+
 /-- kernel-free reference: a waker is outstanding iff the last operation was a `register` -/
 def outstanding (ops : List Op) : Option WakerId :=
   match ops.getLast? with
@@ -171,6 +192,34 @@ def step (s : Sys) : Op → Option (Sys × Obs)
     if s.hasHandle h then some (s, .debug false s.ctr.count s.ctr.capacity) else none
   | .debugGuard g =>
     if g ∈ s.guards then some (s, .debug true s.ctr.count s.ctr.capacity) else none
+
+/-- ids `≥ 6`: inline-polling wakers whose task, told from inside `wake()` that a slot is free, **takes
+it** on the spot (`get()`), after which the next task in line asks `available` with its own (counting)
+waker `w - 4` — all before `wake()`, and the guard drop that called it, return. -/
+def takerWaker (w : WakerId) : Bool := decide (6 ≤ w)
+
+/-- `get()` / `available(cx)` through a handle that is not in the table (the woken task's own clone) -/
+def Sys.acquireCore (s : Sys) : Sys × Obs :=
+  ({ s with ctr := s.ctr.inc, guards := s.guards ++ [s.nextGuard], nextGuard := s.nextGuard + 1 }, .guard s.nextGuard)
+
+def Sys.availableCore (s : Sys) (w : WakerId) : Sys × Obs :=
+  ({ s with ctr := (s.ctr.available w).1 }, .avail (s.ctr.available w).2)
+
+/-- what happens inside `wake()` after the inline poll of a releasing drop (observation `o`): a taking
+task that was answered "available" acquires, and the next task asks.  These are **ordinary operations
+on the state the drop leaves behind** (`callback_is_sequential`): re-entrancy adds no behaviour. -/
+def Sys.callback (s : Sys) : Obs → Sys × List Obs
+  | .dropped (some w) (some (_, true)) =>
+    if takerWaker w then
+      ((s.acquireCore.1.availableCore (w - 4)).1, [s.acquireCore.2, (s.acquireCore.1.availableCore (w - 4)).2])
+    else (s, [])
+  | _ => (s, [])
+
+/-- one operation as the line protocol sees it: a guard drop includes the callback of the task it woke -/
+def stepRe (s : Sys) (op : Op) : Option (Sys × List Obs) :=
+  match step s op with
+  | none => none
+  | some (s', o) => some ((s'.callback o).1, o :: (s'.callback o).2)
 
 /-- a history of applicable operations with the observations it produced -/
 def run (s : Sys) : List Op → Option (Sys × List Obs)
